@@ -17,6 +17,11 @@ class ToolError(Exception):
     pass
 
 
+def tla_json(raw):
+    """The argument of PrintT(<<"X", ToJson(v)>>) as printed by TLC: a TLA+ string literal holding JSON."""
+    return json.loads(json.loads('"' + raw + '"'))
+
+
 def seed():
     try:
         return int(os.environ.get("VERIF_SEED", "1"))
@@ -84,10 +89,10 @@ def tlc_trace(module, trace_path, wd, timeout=600, cfg=None):
     shutil.rmtree(meta, ignore_errors=True)
     flags, cov = [], {}
     for m in re.finditer(r'<<"FLAG", "(.*)">>', text):
-        flags.append(json.loads(m.group(1).replace('\\"', '"')))
+        flags.append(tla_json(m.group(1)))
     m = re.search(r'<<"COV", "(.*)">>', text)
     if m:
-        cov = json.loads(m.group(1).replace('\\"', '"'))
+        cov = tla_json(m.group(1))
     ok = "Model checking completed. No error has been found." in text
     if not ok:
         tail = "\n".join(text.splitlines()[-40:])
@@ -195,9 +200,9 @@ def tlc_strict(cfg, trace_path, wd, timeout=600):
     dt = time.time() - t0
     text = open(out, errors="replace").read()
     shutil.rmtree(meta, ignore_errors=True)
-    drifts = [json.loads(m.group(1).replace('\\"', '"')) for m in re.finditer(r'<<"DRIFT", "(.*)">>', text)]
+    drifts = [tla_json(m.group(1)) for m in re.finditer(r'<<"DRIFT", "(.*)">>', text)]
     m = re.search(r'<<"STRICT", "(.*)">>', text)
-    stats = json.loads(m.group(1).replace('\\"', '"')) if m else {}
+    stats = tla_json(m.group(1)) if m else {}
     ok = "Model checking completed. No error has been found." in text
     if not ok:
         tail = "\n".join(text.splitlines()[-30:])
@@ -210,10 +215,10 @@ def export_paths(text):
     cfg = None
     m = re.search(r'<<"CFG", "(.*)">>', text)
     if m:
-        cfg = json.loads(m.group(1).replace('\\"', '"'))
+        cfg = tla_json(m.group(1))
     paths = []
     for m in re.finditer(r'<<"PATH", "(.*)">>', text):
-        paths.append(json.loads(m.group(1).replace('\\"', '"')))
+        paths.append(tla_json(m.group(1)))
     keys = {}
     for p in paths:
         keys[json.dumps(p["steps"], sort_keys=True)] = p
